@@ -172,6 +172,7 @@ type peerReply struct {
 	Payload string // unique
 	Raw     string
 	IsErr   bool
+	Defect  bool // a member with one structural defect (id still resolvable)
 }
 
 type srvWorld struct {
